@@ -64,8 +64,14 @@ CLAIMED['C17'] = ('other', 'partial scope (DESIGN.md C17): for every shipped con
 CLAIMED['C14'] = ('other', 'universal part by bounded symbolic execution of the real reset functions with every draw symbolic (one path per outcome of all draws); existential part per initial state: the successor relation is produced by the real GridWorld.functional_step of the shipped composition over every reachable (state, action, draw outcome), z3 fixedpoint (datalog) decides whether a rewarded exit is in the least fixpoint without passing through a terminating state, and the witness action/draw sequence is replayed on the real step function. One genuine defect (memory_rooms) is recorded as a known finding',
                   'trusts z3 (SMT and datalog engines), the proxy layer, SymRng/ScriptRng; the successor relation is obtained by executing the real step function on concrete states (the existential search itself is explicit-state, the solver decides the fixpoint); shapes beyond the bounds are outside', 'DESIGN.md §5 C14')
 
+CLAIMED['C19'] = ('other', 'partial scope. Per-ray clauses by bounded symbolic execution of the real compute_ray for EVERY direction: sin/cos are stubbed by an arbitrary pair '
+                  'constrained by |s|,|c|<=1, |s|+|c|>=1-2^-40; binary64 operations are over-approximated by exact real result +- a concrete rounding-error radius, round() by "a nearest integer"; '
+                  'the index source is stubbed so that each consecutive pair of samples (i, i+1), sample 0 and the sample at the bound are decided separately (start / step / exit lemmas, composed by the '
+                  'induction written in DESIGN.md). Fan clauses (coverage, unobstructed view, cache independence) by enumeration of the real fan functions: concrete side checks, not solver verdicts',
+                  'trusts z3, the proxy layer, the float abstraction (IEEE-754 round-to-nearest error bound), the stub contract for sin/cos (checked on every enumerated fan angle) and the paper induction '
+                  'from the three lemmas to the whole-ray clauses; areas/origins beyond the bound are outside the verdict', 'DESIGN.md §5 C19')
+
 NOT_APPLICABLE = {
-    'C19': 'floating-point trigonometric ray kernel (sin/cos/arctan2 via libm/numpy, round-to-nearest of accumulated float steps): no SMT theory for the transcendental part, the only FP-expressible lemma timed out (300 s) on z3 and cvc5, and the remaining inputs form a small finite domain a solver would merely enumerate; see DESIGN.md §5 C19',
 }
 
 PENDING = 'check not built yet in this revision (planned, see DESIGN.md §7 build order); not claimed until its harness is committed'
